@@ -226,6 +226,22 @@ func c01Engine(useShipped bool) func(t *rapid.T) {
 			database.VerifSetEmbeddingIndex(db, idx)
 			withEmb, alignedWord = true, word
 		}
+		var nearBoosts map[string]float64
+		if !useShipped && alignedWord == "" && rapid.IntRange(0, 11).Draw(t, "lexical-near-ties") == 0 {
+			// near-ties at the lexical stage: entries of one shape, each with a word of its own, asked for
+			// together; per-word weights of 1 + k*1e-9 put the scores a few 1e-9 apart, in any order
+			ws := rapid.SliceOfNDistinct(rapid.SampledFrom([]string{"zorvex", "plinth", "quarn", "vexil", "drumlin", "sporran", "tallow", "wicket"}), 2, 6, func(s string) string { return s }).Draw(t, "near-tie-words")
+			cmds, nearBoosts = nil, map[string]float64{}
+			for _, w := range ws {
+				cmds = append(cmds, database.Command{Command: w + " sync", Description: "keeps things in step"})
+				nearBoosts[w] = 1 + float64(rapid.SampledFrom([]int{0, 1, 2, 3, 10, 100, 1000}).Draw(t, "near-tie-k"))*1e-9
+			}
+			cmds = append(cmds, database.Command{Command: "other tool", Description: "unrelated"})
+			cls = "lexical-near-ties"
+			db = gen.Load(t, cmds)
+			withEmb = false
+			alignedWord = strings.Join(ws, " ")
+		}
 		var q string
 		var qcls gen.QueryClass
 		if useShipped {
@@ -241,6 +257,10 @@ func c01Engine(useShipped bool) func(t *rapid.T) {
 			q, qcls = alignedWord, "aligned-word"
 			opt.ContextBoosts, opt.PipelineOnly = nil, false
 			opt.AllPlatforms = true
+			if nearBoosts != nil {
+				q, qcls = alignedWord, "near-tie-words"
+				opt.ContextBoosts, opt.UseNLP, opt.UseFuzzy = nearBoosts, false, false
+			}
 		}
 		e := rapid.SampledFrom(c01Entries).Draw(t, "entry")
 		if alignedWord != "" {
@@ -382,7 +402,7 @@ func c01Engine(useShipped bool) func(t *rapid.T) {
 
 func TestC01_Engine(t *testing.T) {
 	r := stat.For("C01")
-	r.RequireShare("fuzzy-fallback", 0.04)
+	r.RequireShare("fuzzy-fallback", 0.025)
 	r.RequireShare("cache-hit-path", 0.05)
 	r.RequireShare("limit<=0", 0.10)
 	r.RequireShare("tie-heavy", 0.10)
